@@ -112,6 +112,11 @@ def generate(rng, tier, index):
             break
         except G.Unsatisfiable:
             continue
+    # text B imports its own random subset of the packages (without using
+    # their types): which components a load pulls in differs between loads
+    imp_b = [{"t": "%import " + pk, "role": "import", "pkg": pk}
+             for pk in sorted(sc["packages"]) if rng.random() < 0.4]
+    lines = imp_b + lines
     lines = G.decorate(rng, lines)
     uni_b = layout.cut(rng, lines, top_url="file:///sim/b/top.conf",
                        ncuts=rng.choice([0, 1, 2]), decoys=False)
